@@ -59,6 +59,7 @@ func runC03(r *engine.Run) {
 	}
 	r.Rule = "E1 products. Function level: EncryptFRMPayload for every payload length 0..255 x direction x key(3) x DevAddr(3) x FCnt(5) x buffer layout(3); EncryptFOpts for lengths 0..15,16,17,255 x aFCntDown x direction x the same alphabets. Method level: EncryptFRMPayload/DecryptFRMPayload/EncryptFOpts/DecryptFOpts on MType{2..5} x FPort{absent,0,1,255} x FOpts forms {none, command list of each length 1..15, opaque 1..15, 16, 20 bytes} x FRMPayload forms {none, opaque 1/16/17/242, port-0 commands} x key/DevAddr/FCnt alphabets. Oracle: S_i = AES(K, A_i) keystream written from the specification (mc/spec/crypto.go); an operation that returns nil must have applied exactly the specified transform. Non-trivial: the operation returned nil and its result was compared with the keystream XOR; distinct by construction."
 	cryptoHistory(r)
+	manyKeysHistory(r)
 	r.Assume("AES is crypto/aes (trusted); keys/addresses/counters use 3/3/5-value alphabets plus single-bit walks over every bit of key, DevAddr and FCnt")
 	r.Assume("writes outside the given slice are reported under C10 (isolation), not here; this check only demands the returned bytes")
 
